@@ -192,7 +192,7 @@ def mutate_fit(rng, fit, original):
     stay inside the previous ones (valid region)."""
     import copy
     defaults = [i for i, f in enumerate(fit)
-                if not f.get('set_prior', True)]
+                if not f.get('set_prior', True) and not f.get('signed')]
     if defaults and rng.random() < 0.2:
         # nothing changes but one boundary, given as factors of the value the
         # parameter has at that moment
@@ -232,6 +232,8 @@ def mutate_fit(rng, fit, original):
                 a['std'] = a['std'] * rng.uniform(0.5, 1.0)
         if f['name'] in user:
             f['set_prior'] = True       # user priors cannot be withdrawn
+        if f.get('signed'):
+            continue       # a linear-only parameter (negative values legal)
         if not f.get('set_prior', True) and rng.random() < 0.3:
             # default prior follows the mode: flip both
             if k == 'Uniform':
